@@ -3,22 +3,35 @@
 import glob
 import os
 import signal
+import xml.dom
 import sys
 
 from hypothesis import strategies as st
 
 import cssutils
 from vlib import cssmodel as A
-from vlib.runner import REPO, HarnessAbort, Sub, Violation, frame_sig
+from vlib.runner import h64, REPO, HarnessAbort, Sub, Violation, frame_sig
 
 PROPERTY = 'C01'
+HANG_WATCH = 30  # seconds of CPU on one case after which the runner kills the worker and reports hang:cpu-bound
 RULE = (
     'soup: 1..25 fragments from an alphabet of token spellings of every kind, brackets, quotes, escapes, control and '
     'non-ASCII characters and "dangerous glue" (url( / var( / rgb( / calc( / @charset at the end, at-keywords inside '
     'declarations, CDO/CDC), joined with or without white space and truncated anywhere. mutant: renderings of abstract '
     'sheets (C02 generator) and the repository sheets with 1..4 mutations (delete / duplicate / swap a slice, insert a '
     'fragment, cut). nest: blocks, parentheses, brackets, functions, @media, unknown at-rules, :not( nested to depth '
-    '1..100. bytes: texts encoded in 12 encodings with/without BOM and @charset. Every case x (parseComments, validate '
+    '1..100. bytes: texts encoded in 12 encodings with/without BOM and @charset (naming the encoding used, another one, an unknown one '
+    'or one of 23 odd codec names: non-text codecs base64/hex/rot13/zlib/bz2/uu/quopri, css, undefined, punycode, idna, utf-7, '
+    'empty and padded names). named: text sheets naming such an encoding, sheet.encoding set to one, @import targets delivered as '
+    'text or bytes with such a transport charset / @charset: nothing may raise. small: ALL strings of up to 4-7 symbols (5-8 '
+    'thorough) over small alphabets in 12 contexts (selector, namespaced selector, :not(), value, media query, page selector, '
+    '@import prelude, @variables, declaration lists, top-level statements, style attribute) - bounded exhaustive, no generator '
+    'luck needed. long: 41 families of FLAT inputs (n terms / declarations / rules / selectors / compounds / media queries / '
+    'imports / comments / margin boxes / variables / namespaces ..., and runs of one character after an opener: unclosed string, '
+    'url, comment of asterisks, backslashes, digits ...) at n = 30, 300, 1500 (thorough up to 10000): same oracle, so recursion '
+    'depth and cost must not grow with length. The runner watches every case from outside: a worker that is still computing on '
+    'one case after 30 s of CPU time is killed and the case reported as hang:cpu-bound (regular-expression backtracking is '
+    'invisible to the call meter). Every case x (parseComments, validate '
     'at parser and call level, entry point parseString / parseStyle / fresh or reused CSSParser, fetcher returning '
     'content / None / (None, None) / nothing, acyclic and cyclic @import graphs). Oracle: returns the DOM type, no '
     'exception; cssText works; parsing that serialisation and serialising again work; a deterministic cost meter '
@@ -29,7 +42,7 @@ RULE = (
 ASSUMPTIONS = [
     'cost is measured in Python calls inside the cssutils package (deterministic), not in seconds; constants A=20000 B=3000 C=20 are >=10x the worst ratios measured on the repository sheets and on generated well-formed sheets',
     'time spent inside C code (re) is only guarded by a 60 s alarm that makes the run inconclusive, never a violation',
-    'undecodable byte input must raise UnicodeDecodeError or LookupError (the documented behaviour) and nothing else',
+    'undecodable byte input must raise UnicodeDecodeError or LookupError (the documented behaviour) and nothing else (UnicodeError covers the bare UnicodeError some stdlib codecs raise - undefined, punycode, idna; naming "css" itself raises ValueError, pinned by the suite); the exception must come from the decoding step',
     'function nesting is capped at depth 6 outside the sweep (exponential cost is the listed finding F01-1); cyclic @import graphs are the listed finding F01-2',
 ]
 
@@ -39,6 +52,16 @@ A_, B_, C_ = 20000, 3000, 20
 
 class Budget(BaseException):
     pass
+
+
+class NoMeter:
+    n = 0
+
+    def __enter__(self):
+        return self
+
+    def __exit__(self, *a):
+        return False
 
 
 class Meter:
@@ -139,7 +162,7 @@ CONFIG = st.fixed_dictionaries({
 })
 
 
-def run_one(data, cfg, ctx, n=None, limit=None):
+def run_one(data, cfg, ctx, n=None, limit=None, meter=True):
     """the oracle; returns cost"""
     n = len(data) if n is None else n
     limit = limit or (A_ + B_ * n + C_ * n * n)
@@ -147,7 +170,7 @@ def run_one(data, cfg, ctx, n=None, limit=None):
     old = signal.signal(signal.SIGALRM, _alarm)
     signal.alarm(60)
     try:
-        with Records() as rec, Meter(limit) as meter:
+        with Records() as rec, (Meter(limit) if meter else NoMeter()) as meter:
             try:
                 may_import = isinstance(data, bytes) or 'mp' in data.lower() or '\\' in data
                 if cfg['module_level'] and cfg['entry'] == 'sheet' and cfg['fetcher'] == 'none' and not may_import:
@@ -425,12 +448,15 @@ def check_cyc(case, ctx):
 
 # --------------------------------------------------------------------------- bytes
 
+# codecs that exist but are not text encodings, or are odd ones: naming them must behave like naming an unknown encoding
+ODD_CODECS = ['base64', 'hex', 'rot13', 'zlib', 'bz2', 'uu', 'quopri', 'css', 'undefined', 'unicode_escape', 'raw_unicode_escape',
+              'punycode', 'idna', 'utf-7', 'mbcs', 'string-escape', '', ' ', 'utf-8 ', 'UTF8', 'u8', 'latin_1', 'iso-8859-1\n']
 ENCODINGS = ['utf-8', 'utf-8-sig', 'utf-16', 'utf-16-le', 'utf-16-be', 'utf-32', 'latin-1', 'cp1252', 'koi8-r', 'shift_jis', 'ascii', 'gb2312']
 bytes_strategy = st.fixed_dictionaries({
     'text': st.lists(st.sampled_from(FRAGS[:60] + ['é', 'ä', '€', 'Ж', '中', 'あ']), min_size=1, max_size=12).map(' '.join),
     'enc': st.sampled_from(ENCODINGS),
-    'charset': st.sampled_from([None, None, 'same', 'utf-8', 'latin-1', 'koi8-r', 'x-unknown', 'ascii']),
-    'override': st.sampled_from([None, None, None, 'same', 'utf-8', 'latin-1']),
+    'charset': st.sampled_from([None, None, 'same', 'same', 'utf-8', 'latin-1', 'koi8-r', 'x-unknown', 'ascii'] + ODD_CODECS),
+    'override': st.sampled_from([None, None, None, None, 'same', 'utf-8', 'latin-1', 'x-unknown'] + ODD_CODECS[:4]),
     'garble': st.one_of(st.none(), st.integers(0, 40)),
     'cfg': CONFIG,
 })
@@ -462,8 +488,17 @@ def check_bytes(case, ctx):
                 cssutils.CSSParser(fetcher=make_fetcher('none')).parseString(t1).cssText
             ctx.event('decoded')
             nt = sheet.cssRules.length > 0
-        except UnicodeDecodeError:
+        except UnicodeError as e:
+            # UnicodeDecodeError, or the bare UnicodeError some stdlib codecs raise (undefined, punycode, idna)
+            if 'codec.py' not in frame_sig(e):
+                raise Violation('crash:bytes:' + frame_sig(e), f'{data[:200]!r} override={override}: {e!r}'[:500])
             ctx.event('rejected-as-undecodable')
+            nt = False
+        except ValueError as e:
+            # the css codec cannot be its own encoding (pinned by the suite as ValueError)
+            if 'css not allowed as encoding name' not in str(e):
+                raise Violation('crash:bytes:' + frame_sig(e), f'{data[:200]!r} override={override}: {e!r}'[:500])
+            ctx.event('rejected-unknown-encoding')
             nt = False
         except LookupError as e:
             if type(e) is not LookupError:  # IndexError / KeyError are crashes, not "unknown encoding"
@@ -485,7 +520,183 @@ def check_bytes(case, ctx):
     ctx.case([data.hex(), override], nt, {'bytes': data[:80].hex(), 'enc': enc, 'override': override})
 
 
+
+# --------------------------------------------------------------------------- text sheets that name an encoding; fetchers that deliver odd encodings
+
+NAMES = ['utf-8', 'ascii', 'x-unknown'] + ODD_CODECS
+named_strategy = st.fixed_dictionaries({
+    'own': st.sampled_from([None] + NAMES),
+    'set_encoding': st.sampled_from([None, None] + NAMES),
+    'import_transport': st.sampled_from([None, None] + NAMES),
+    'import_charset': st.sampled_from([None, None] + NAMES),
+    'import_bytes': st.booleans(),
+    'body': st.sampled_from(['a { top: 0 }', 'é { content: "€" }', '']),
+    'cfg': CONFIG,
+})
+
+
+def check_named(case, ctx):
+    """no byte input here: nothing may raise"""
+    text = ('@charset "%s";' % case['own'] if case['own'] is not None else '') + '@import "i.css";' + case['body']
+    itext = ('@charset "%s";' % case['import_charset'] if case['import_charset'] is not None else '') + 'i { left: 0 } ' + case['body']
+
+    def fetcher(url):
+        return (case['import_transport'], itext.encode('utf-8') if case['import_bytes'] else itext)
+
+    cfg = case['cfg']
+    saved = cssutils.log.raiseExceptions
+    try:
+        try:
+            p = cssutils.CSSParser(parseComments=cfg['parseComments'], validate=cfg['validate'], fetcher=fetcher)
+            sheet = p.parseString(text, href='http://h/main.css')
+            if case['set_encoding'] is not None:
+                try:
+                    sheet.encoding = case['set_encoding']
+                except xml.dom.DOMException:
+                    ctx.event('encoding-rejected')
+            t1 = sheet.cssText
+            for r in sheet.cssRules:
+                if r.type == r.IMPORT_RULE and r.styleSheet is not None:
+                    r.styleSheet.cssText
+            try:
+                cssutils.CSSParser(fetcher=make_fetcher('none')).parseString(t1).cssText
+            except (UnicodeDecodeError, LookupError) as e:
+                raise Violation('named:serialisation-not-decodable', f'{text!r} (encoding= {case["set_encoding"]!r}) -> {t1[:100]!r}: {e!r}')
+        except Violation:
+            raise
+        except RecursionError:
+            raise Violation('crash:RecursionError', f'{text!r}')
+        except Exception as e:  # noqa: BLE001
+            raise Violation('crash:named:' + frame_sig(e), f'{text!r} import ({case["import_transport"]!r}, {itext!r}, bytes={case["import_bytes"]}) encoding={case["set_encoding"]!r}: {e!r}'[:700])
+    finally:
+        cssutils.log.raiseExceptions = saved
+    odd = [x for x in (case['own'], case['set_encoding'], case['import_transport'], case['import_charset']) if x in ODD_CODECS or x == 'x-unknown']
+    ctx.case([text, itext, case['import_transport'], case['import_bytes'], case['set_encoding']], bool(odd), {'text': text, 'import': itext})
+
+
+# --------------------------------------------------------------------------- all short strings over small alphabets (no generator luck needed)
+
+SMALL = {
+    # context template, alphabet quick, max length quick, alphabet thorough, max length thorough
+    'selector': ('%s{top:0}', ['*', '|', 'a', ':', '(', ')', '[', ']', ',', '.'], 4, ['*', '|', 'a', ':', '(', ')', '[', ']', ',', '.', '#', '=', '"', ' ', '>', '+'], 5),
+    'selector-ns': ('@namespace a "u";%s{top:0}', ['*', '|', 'a'], 7, ['*', '|', 'a', 'b', ' '], 8),
+    'not': ('x:not(%s){top:0}', ['*', '|', 'a', ':', '(', ')', '[', ']', '.', ' '], 4, ['*', '|', 'a', ':', '(', ')', '[', ']', '.', ' ', '#', ','], 5),
+    'value': ('a{x:%s}', ['a', '1', '(', ')', ',', '/', '"', 'f(', '-', '!', ';', '{', '}', ':'], 4,
+              ['a', '1', '(', ')', ',', '/', '"', 'f(', '-', '!', ';', '{', '}', ':', 'url(', '+', '%', ' ', '#', 'rgb('], 5),
+    'media': ('@media %s{a{top:0}}', ['all', 'and', '(', ')', 'not', ',', ':', '1', ' ', 'a'], 4,
+              ['all', 'and', '(', ')', 'not', 'only', ',', ':', '1px', ' ', 'a', '/'], 5),
+    'page': ('@page %s{margin:0}', [':', 'first', 'a', ' ', ',', '@', '(', '{', '}'], 4, [':', 'first', 'left', 'a', ' ', ',', '@', '(', ')', '{', '}', '.'], 5),
+    'import': ('@import %s;a{top:0}', ['"x"', 'url(x)', 'all', 'and', '(', ')', ',', ' ', 'a', ':'], 4,
+               ['"x"', 'url(x)', 'all', 'and', '(', ')', ',', ' ', 'a', ':', '"', 'not'], 5),
+    'variables': ('@variables {%s} a{top:var(a)}', ['a', ':', '1', ';', '/*c*/', ' ', '}', 'var(', ')'], 5,
+                  ['a', 'b', ':', '1', ';', '/*c*/', ' ', '}', 'var(', ')', '{', '!'], 6),
+    'variables-decls': ('@variables {%s} a{top:var(a)}', ['a:1', ';', '/*c*/', ' ', 'b:2', 'A:3', 'a:var(b)', ':'], 5,
+                        ['a:1', ';', '/*c*/', ' ', 'b:2', 'A:3', 'a:var(b)', ':', '}', 'a\\62 :4'], 6),
+    'declarations': ('a{%s}', ['top:0', ';', '/*c*/', ' ', 'TOP:1', '!important', 'x', ':', '{}'], 5,
+                     ['top:0', ';', '/*c*/', ' ', 'TOP:1', '!important', 'x', ':', '{}', '@a', '"'], 6),
+    'statement': ('%s', ['@', 'a', '{', '}', ';', '(', ')', '"', '@media', '@import', ' ', ':'], 4,
+                  ['@', 'a', '{', '}', ';', '(', ')', '"', '@media ', '@import ', ' ', ':', '@page', '@font-face', '[', ']', '/*', '*/'], 5),
+    'style-attr': ('%s', ['a', ':', ';', '1', '!', '(', '{', '}', '/*', '"'], 4, ['a', ':', ';', '1', '!', '(', ')', '{', '}', '/*', '*/', '"', 'important', ' '], 5),
+}
+
+
+def small_cases(tier):
+    import itertools
+
+    for name, (tmpl, aq, nq, at, nt_) in sorted(SMALL.items()):
+        alpha, nmax = (aq, nq) if tier == 'quick' else (at, nt_)
+        for n in range(1, nmax + 1):
+            for combo in itertools.product(range(len(alpha)), repeat=n):
+                yield {'ctx': name, 'text': ''.join(alpha[i] for i in combo)}
+
+
+DEFAULT_CFG = {'entry': 'sheet', 'parseComments': True, 'validate': True, 'callvalidate': None, 'fetcher': 'empty', 'module_level': False}
+
+
+def check_small(case, ctx):
+    text = SMALL[case['ctx']][0] % case['text']
+    h = h64([text])
+    cfg = dict(DEFAULT_CFG)
+    if case['ctx'] == 'style-attr':
+        cfg['entry'] = 'style'
+    if h % 4 == 0:
+        cfg['parseComments'] = False
+    if h % 8 < 2:
+        cfg['validate'] = False
+    cost, recs, nrules = run_one(text, cfg, ctx, meter=False)
+    ctx.event('small:' + case['ctx'])
+    ctx.case(text, recs > 0, {'text': text} if h % 50 == 0 else None)
+
+
+# --------------------------------------------------------------------------- long flat inputs: cost and recursion must not grow with *length*
+
+LONG = {
+    'terms-space': lambda n: 'a{x:' + ' 1' * n + '}',
+    'terms-comma': lambda n: 'a{x:1' + ',1' * n + '}',
+    'terms-mixed': lambda n: 'a{font-family:' + ','.join(['"a" b'] * n) + '}',
+    'declarations': lambda n: 'a{' + 'top:0;' * n + '}',
+    'rules': lambda n: 'a{top:0}' * n,
+    'selectors': lambda n: ','.join(['a'] * n) + '{top:0}',
+    'compounds': lambda n: ' '.join(['a'] * n) + '{top:0}',
+    'classes': lambda n: 'a' + '.c' * n + '{top:0}',
+    'media': lambda n: '@media ' + ','.join(['tv'] * n) + '{a{top:0}}',
+    'media-and': lambda n: '@media tv' + ' and (color)' * n + '{a{top:0}}',
+    'media-rules': lambda n: '@media tv{' + 'a{top:0}' * n + '}',
+    'imports': lambda n: '@import "x.css";' * n,
+    'comments': lambda n: '/*c*/' * n + 'a{top:0}',
+    'string': lambda n: 'a{content:"' + 'x' * n + '"}',
+    'open-string': lambda n: 'a{content:"' + 'x' * n,
+    'open-string-nl': lambda n: 'a{content:"' + 'x' * n + '\n}',
+    'open-url': lambda n: 'a{b:url("' + 'x' * n,
+    'open-comment-stars': lambda n: '/*' + '*' * n,
+    'comment-stars': lambda n: '/*' + '*' * n + ' x',
+    'ident': lambda n: 'a' * n + '{top:0}',
+    'digits': lambda n: 'a{x:' + '1' * n + 'e}',
+    'escapes': lambda n: 'a{x:' + '\\41 ' * n + '}',
+    'backslashes': lambda n: 'a{x:' + '\\' * n + '}',
+    'white': lambda n: 'a' + ' ' * n + '{top:0}',
+    'newlines': lambda n: 'a{' + '\n' * n + 'top:0}',
+    'semicolons': lambda n: 'a{' + ';' * n + '}',
+    'garbage-stmt': lambda n: ';' * n + 'a{top:0}',
+    'at': lambda n: '@' * n,
+    'hashes': lambda n: '#' * n + '{top:0}',
+    'pipes': lambda n: '|' * n + 'a{top:0}',
+    'dashes': lambda n: 'a{x:' + '-' * n + 'a}',
+    'important': lambda n: 'a{x:1' + ' !important' * n + '}',
+    'page-margins': lambda n: '@page{' + '@top-left{content:"x"}' * n + '}',
+    'variables': lambda n: '@variables{' + ''.join('v%d:1;' % i for i in range(n)) + '}',
+    'namespaces': lambda n: ''.join('@namespace p%d "u%d";' % (i, i) for i in range(n)) + 'a{top:0}',
+    'unknown-prelude': lambda n: '@foo' + ' a' * n + ';',
+    'calc': lambda n: 'a{width:calc(1px' + ' + 1px' * n + ')}',
+    'function-args': lambda n: 'a{x:f(1' + ',1' * n + ')}',
+    'attr': lambda n: 'a' + '[b]' * n + '{top:0}',
+    'not': lambda n: 'a' + ':not(b)' * n + '{top:0}',
+    'style-attr-decls': lambda n: 'top:0;' * n,
+}
+LONG_SIZES = {'quick': [30, 300, 1500], 'thorough': [30, 100, 300, 1000, 3000, 10000]}
+
+
+def long_cases(tier):
+    for name in sorted(LONG):
+        for n in LONG_SIZES[tier]:
+            yield {'family': name, 'n': n}
+
+
+def check_long(case, ctx):
+    text = LONG[case['family']](case['n'])
+    cfg = dict(DEFAULT_CFG)
+    if case['family'].startswith('style-attr'):
+        cfg['entry'] = 'style'
+    # flat inputs: linear growth expected; the bound below is the common polynomial budget
+    cost, recs, nrules = run_one(text, cfg, ctx)
+    ctx.event('long:' + case['family'])
+    ctx.case([case['family'], case['n']], case['n'] >= 300, {'family': case['family'], 'n': case['n'], 'calls': cost, 'length': len(text)})
+
+
 SUBS = [
+    Sub('named', check_named, strategy=named_strategy, quick=1500, thorough=60000, shards_quick=4),
+    Sub('small', check_small, enumerate=small_cases, shards_quick=8, shards_thorough=16, budget_quick=120, budget_thorough=3000),
+    Sub('long', check_long, enumerate=long_cases, shards_quick=8, shards_thorough=16, budget_quick=120, budget_thorough=3000),
     Sub('soup', check_soup, strategy=soup_strategy, quick=5000, thorough=400000, shards_quick=8, budget_quick=60),
     Sub('mutant', check_mutant, strategy=mutant_strategy, quick=1500, thorough=100000, shards_quick=8, budget_quick=60),
     Sub('nest', check_nest, enumerate=nest_cases, shards_quick=8, shards_thorough=16),
